@@ -1712,6 +1712,7 @@ func (mgr *Manager) startMonitoringConverters(watcher *fsnotify.Watcher) {
 					mgr.jobs <- func() {
 						if err := mgr.removeConverter(event.Name); err != nil {
 							log.Printf("error while removing converter: %v", err)
+							return
 						}
 						name := strings.TrimSuffix(filepath.Base(event.Name), filepath.Ext(event.Name))
 						mgr.event(Event{
@@ -1916,6 +1917,10 @@ func (mgr *Manager) removeConverter(path string) error {
 	if !ok {
 		return fmt.Errorf("error: converter %s does not exist", name)
 	}
+	// another file with the same name but a different extension is not the converter
+	if filepath.Base(converter.ExecutablePath()) != filepath.Base(path) {
+		return fmt.Errorf("error: %s is not the executable of converter %s", path, name)
+	}
 
 	// remove converter from all tags
 	for tagName, tag := range mgr.tags {
@@ -1947,6 +1952,10 @@ func (mgr *Manager) restartConverterProcess(path string) error {
 			Type:      "converterAdded",
 			Converter: converter.Statistics(),
 		})
+	}
+	// another file with the same name but a different extension is not the converter
+	if base := filepath.Base(path); base != name && base != filepath.Base(converter.ExecutablePath()) {
+		return fmt.Errorf("error: %s is not the executable of converter %s", path, name)
 	}
 	// Stop the process if it is running and restart it
 	if err := converter.Reset(); err != nil {
